@@ -23,7 +23,7 @@ RULE = ("cases: minres called directly on SPD matrices with prescribed spectra (
         "with lhs also diag(L A^-1 L^T); the update criterion on which MINRES stopped is recomputed from the recorded iterates (mean over "
         "all systems of ||x_i - x_(i-1)|| / ||x_i||), batches include members of very different scale; "
         " tolerance 1e-4 for kappa <= 1e2 or n <= 8, 3e-2 otherwise (8e-2 with 7 nodes). distinct key = (clause, spectrum "
-        "family, kappa decade, shifts kind, preconditioner, dtype, batch rank) [added: residual within the stopping tolerance (30 tol kappa) once the update criterion is met - with ANY preconditioner for the unshifted system (with a preconditioner P the shifted recurrences solve (K + s P) x = b) - or at Krylov exhaustion for kappa <= 100] [round 4: exhaustion clause only without a preconditioner; sqrt_inv_matmul with 1-D right-hand sides, singleton batches, 1 x 1 operators, one-row left factors - shapes compared before values; L A^-1/2 R judged relative to ||L|| ||A^-1/2 R||]")
+        "family, kappa decade, shifts kind, preconditioner, dtype, batch rank) [added: residual within the stopping tolerance (30 tol kappa) once the update criterion is met - with ANY preconditioner for the unshifted system (with a preconditioner P the shifted recurrences solve (K + s P) x = b) - or at Krylov exhaustion for kappa <= 100] [round 4: exhaustion clause only without a preconditioner; sqrt_inv_matmul with 1-D right-hand sides, singleton batches, 1 x 1 operators, one-row left factors - shapes compared before values; L A^-1/2 R judged relative to ||L|| ||A^-1/2 R||] [round 5: sqrt_inv_matmul also on Diag / ConstantDiag / KroneckerProductDiag operators (classes that specialise it)]")
 ASSUMPTIONS = ["float64 dense solves / symmetric matrix roots are the reference", "minres.* hook events expose the iterate per iteration",
                "delta = 1e-6 (f64) / 1e-2 (f32) on the Krylov-optimal residual, calibrated on the unchanged tree"]
 REQUIRED_STATS = ("minres_runs", "minres_iter_events", "ciq_runs")
